@@ -12,3 +12,4 @@ import RedactVerif.Props.C07
 import RedactVerif.Props.C10
 import RedactVerif.Props.C13
 import RedactVerif.Props.C14
+import RedactVerif.Model.Printer
